@@ -158,7 +158,7 @@ fn c02_header_name_casing() {
     std::mem::forget(req);
 }
 
-// @verif prop=C02 tier=quick replay=none mem=24 bounds="a request whose only header is `Host: xy` (no custom header): headers.get by canonical and lower-case name"
+// @verif prop=C02 tier=quick replay=none mem=8 bounds="a request whose only header is `Host: xy` (no custom header): headers.get by canonical and lower-case name"
 #[kani::proof]
 #[kani::stub(core::str::from_utf8, stubs::from_utf8_model)]
 #[kani::unwind(12)]
